@@ -138,6 +138,20 @@ func convertToFloat(other Object) (Float, bool) {
 	return 0, false
 }
 
+// Convert the other operand of a float arithmetic operation to a Float
+//
+// Returns ok as to whether the conversion worked or not, and the
+// OverflowError if other is an int too large to be represented as a
+// float (python raises that rather than a TypeError)
+func floatOperand(other Object) (b Float, ok bool, err error) {
+	if big, isBig := other.(*BigInt); isBig {
+		b, err = big.Float()
+		return b, err == nil, err
+	}
+	b, ok = convertToFloat(other)
+	return b, ok, nil
+}
+
 func (a Float) M__neg__() (Object, error) {
 	return -a, nil
 }
@@ -151,7 +165,9 @@ func (a Float) M__abs__() (Object, error) {
 }
 
 func (a Float) M__add__(other Object) (Object, error) {
-	if b, ok := convertToFloat(other); ok {
+	if b, ok, err := floatOperand(other); err != nil {
+		return nil, err
+	} else if ok {
 		return Float(a + b), nil
 	}
 	return NotImplemented, nil
@@ -166,14 +182,18 @@ func (a Float) M__iadd__(other Object) (Object, error) {
 }
 
 func (a Float) M__sub__(other Object) (Object, error) {
-	if b, ok := convertToFloat(other); ok {
+	if b, ok, err := floatOperand(other); err != nil {
+		return nil, err
+	} else if ok {
 		return Float(a - b), nil
 	}
 	return NotImplemented, nil
 }
 
 func (a Float) M__rsub__(other Object) (Object, error) {
-	if b, ok := convertToFloat(other); ok {
+	if b, ok, err := floatOperand(other); err != nil {
+		return nil, err
+	} else if ok {
 		return Float(b - a), nil
 	}
 	return NotImplemented, nil
@@ -184,7 +204,9 @@ func (a Float) M__isub__(other Object) (Object, error) {
 }
 
 func (a Float) M__mul__(other Object) (Object, error) {
-	if b, ok := convertToFloat(other); ok {
+	if b, ok, err := floatOperand(other); err != nil {
+		return nil, err
+	} else if ok {
 		return Float(a * b), nil
 	}
 	return NotImplemented, nil
@@ -199,7 +221,9 @@ func (a Float) M__imul__(other Object) (Object, error) {
 }
 
 func (a Float) M__truediv__(other Object) (Object, error) {
-	if b, ok := convertToFloat(other); ok {
+	if b, ok, err := floatOperand(other); err != nil {
+		return nil, err
+	} else if ok {
 		if b == 0 {
 			return nil, floatDivisionByZero
 		}
@@ -209,7 +233,9 @@ func (a Float) M__truediv__(other Object) (Object, error) {
 }
 
 func (a Float) M__rtruediv__(other Object) (Object, error) {
-	if b, ok := convertToFloat(other); ok {
+	if b, ok, err := floatOperand(other); err != nil {
+		return nil, err
+	} else if ok {
 		if a == 0 {
 			return nil, floatDivisionByZero
 		}
@@ -223,14 +249,18 @@ func (a Float) M__itruediv__(other Object) (Object, error) {
 }
 
 func (a Float) M__floordiv__(other Object) (Object, error) {
-	if b, ok := convertToFloat(other); ok {
+	if b, ok, err := floatOperand(other); err != nil {
+		return nil, err
+	} else if ok {
 		return Float(math.Floor(float64(a / b))), nil
 	}
 	return NotImplemented, nil
 }
 
 func (a Float) M__rfloordiv__(other Object) (Object, error) {
-	if b, ok := convertToFloat(other); ok {
+	if b, ok, err := floatOperand(other); err != nil {
+		return nil, err
+	} else if ok {
 		return Float(math.Floor(float64(b / a))), nil
 	}
 	return NotImplemented, nil
@@ -251,7 +281,9 @@ func floatDivMod(a, b Float) (Float, Float, error) {
 }
 
 func (a Float) M__mod__(other Object) (Object, error) {
-	if b, ok := convertToFloat(other); ok {
+	if b, ok, err := floatOperand(other); err != nil {
+		return nil, err
+	} else if ok {
 		_, r, err := floatDivMod(a, b)
 		return r, err
 	}
@@ -259,7 +291,9 @@ func (a Float) M__mod__(other Object) (Object, error) {
 }
 
 func (a Float) M__rmod__(other Object) (Object, error) {
-	if b, ok := convertToFloat(other); ok {
+	if b, ok, err := floatOperand(other); err != nil {
+		return nil, err
+	} else if ok {
 		_, r, err := floatDivMod(b, a)
 		return r, err
 	}
@@ -271,14 +305,18 @@ func (a Float) M__imod__(other Object) (Object, error) {
 }
 
 func (a Float) M__divmod__(other Object) (Object, Object, error) {
-	if b, ok := convertToFloat(other); ok {
+	if b, ok, err := floatOperand(other); err != nil {
+		return nil, nil, err
+	} else if ok {
 		return floatDivMod(a, b)
 	}
 	return NotImplemented, None, nil
 }
 
 func (a Float) M__rdivmod__(other Object) (Object, Object, error) {
-	if b, ok := convertToFloat(other); ok {
+	if b, ok, err := floatOperand(other); err != nil {
+		return nil, nil, err
+	} else if ok {
 		return floatDivMod(b, a)
 	}
 	return NotImplemented, None, nil
@@ -288,14 +326,18 @@ func (a Float) M__pow__(other, modulus Object) (Object, error) {
 	if modulus != None {
 		return NotImplemented, nil
 	}
-	if b, ok := convertToFloat(other); ok {
+	if b, ok, err := floatOperand(other); err != nil {
+		return nil, err
+	} else if ok {
 		return Float(math.Pow(float64(a), float64(b))), nil
 	}
 	return NotImplemented, nil
 }
 
 func (a Float) M__rpow__(other Object) (Object, error) {
-	if b, ok := convertToFloat(other); ok {
+	if b, ok, err := floatOperand(other); err != nil {
+		return nil, err
+	} else if ok {
 		return Float(math.Pow(float64(b), float64(a))), nil
 	}
 	return NotImplemented, nil
